@@ -232,6 +232,7 @@ func exec16(tr *Trace16, probes func(string)) (f *fail16, at int, executed int) 
 		f, skipped = w.step(op, probes)
 		if !skipped {
 			executed++
+			probes("op." + op.K)
 		}
 		if f == nil && !skipped {
 			f = w.compareAll()
